@@ -210,7 +210,7 @@ Definition c16_warnings (s : list N) : list c16_warn :=
 (* ------------------------------------------------------------------------------------------------
    QPDFObjectHandle::pipeContentStreams (what CoalesceProvider provides and what pipePageContents /
    filterPageContents feed to the next pipeline): the decoded streams in order, a newline written before
-   a stream when the previous one was empty or did not end in '\n'. *)
+   a stream when what was written for the previous one (separator included) was empty or did not end in '\n'. *)
 Fixpoint c16_last_is_nl (s : list N) : bool :=
   match s with
   | [] => false
@@ -221,7 +221,10 @@ Fixpoint c16_last_is_nl (s : list N) : bool :=
 Fixpoint c16_coalesce_loop (need_newline : bool) (cs : list (list N)) : list N :=
   match cs with
   | [] => []
-  | s :: r => (if need_newline then [10] else []) ++ s ++ c16_coalesce_loop (negb (c16_last_is_nl s)) r
+  | s :: r =>
+      (* `buffer` receives the separating newline and then the stream's data; need_newline is computed on both *)
+      let chunk := (if need_newline then [10] else []) ++ s in
+      chunk ++ c16_coalesce_loop (negb (c16_last_is_nl chunk)) r
   end.
 
 Definition c16_coalesce (cs : list (list N)) : list N := c16_coalesce_loop false cs.
